@@ -19,17 +19,24 @@ from histcheck import freeze, state_of
 
 ID = 'C10'
 SALT = 1010
-RULE = ('history = 2-20 generated operations building a state, then one generated filter (over '
-        'dates, embedded-document _ids, array paths, operators) is evaluated through find, '
-        'count_documents, update_many/update_one matched_count, delete_many/delete_one '
-        'deleted_count, aggregate $match, distinct and find_one, each on a twin copy of the state, '
-        'and all must select the same documents; along the history deleted_count = drop in size, '
-        'inserted_ids = new _ids, modified_count = number of changed documents; every step is also '
-        'compared with the Lean model; non-trivial = the final filter selects a proper non-empty '
-        'subset; distinct = by hash of (history, filter)')
+RULE = ('history = 2-20 generated operations building a state (documents AND indexes: unique, '
+        'sparse, partial, compound), then one generated filter (over dates, embedded-document '
+        '_ids, array paths, operators, and plain values for every key of an index the history '
+        'created) is evaluated through find, count_documents, update_many/update_one '
+        'matched_count, delete_many/delete_one deleted_count, aggregate $match, distinct and '
+        'find_one, each on a twin copy of the state that carries the same indexes, and all must '
+        'select the same documents; along the history deleted_count = drop in size, inserted_ids '
+        '= new _ids, modified_count = number of changed documents, and the matched / deleted count '
+        'of every write = what count_documents says the same filter selects on the same '
+        'collection right before it; every step is also compared with the Lean model; non-trivial '
+        '= the final filter selects a proper non-empty subset; distinct = by hash of (history, '
+        'filter)')
 ASSUMPTIONS = [
-    'twin copies are rebuilt by inserting the documents find({}) returns into fresh collections '
-    '(indexes are irrelevant to matching)',
+    'twin copies are rebuilt through the public API: the indexes index_information() lists are '
+    'created on a fresh collection, then the documents find({}) returns are inserted; when the '
+    'state cannot be rebuilt that way, or is not index-stable (re-writing every document '
+    'unchanged trips a unique index: states only reachable through the known C06 deviations), '
+    'the twins are index-free copies',
     'TTL-free histories',
 ]
 
@@ -43,9 +50,48 @@ def length(rng):
 view = histcheck.full_view
 
 
-def twin(docs):
+class State(object):
+    """what a twin is a copy of: the documents and the indexes of the collection"""
+
+    def __init__(self, docs, indexes=()):
+        self.docs = docs
+        self.indexes = list(indexes)     # [(name, index_information() entry)]
+
+    def __len__(self):
+        return len(self.docs)
+
+
+INDEX_OPTIONS = ('unique', 'sparse', 'partialFilterExpression', 'expireAfterSeconds')
+
+
+def state_of_collection(coll, docs):
+    """the state with its indexes when a copy with indexes can be built and is index-stable,
+    the index-free state otherwise"""
+    try:
+        info = coll.index_information()
+    except Exception:  # pylint: disable=broad-except
+        return State(docs)
+    indexes = [(name, ix) for name, ix in info.items() if name != '_id_']
+    if not indexes:
+        return State(docs)
+    st = State(docs, indexes)
+    try:
+        c = twin(st)
+        if [d.get('_id') for d in c.find({})] != [d.get('_id') for d in docs]:
+            return State(docs)
+        # index-stable: the write the probes use passes the unique indexes on every document
+        c.update_many({}, {'$set': {'zz': 1}})
+    except Exception:  # pylint: disable=broad-except
+        return State(docs)
+    return st
+
+
+def twin(state):
     c = mongomock.MongoClient().db.twin
-    for d in docs:
+    for name, ix in getattr(state, 'indexes', ()):
+        kw = {k: copy.deepcopy(ix[k]) for k in INDEX_OPTIONS if k in ix}
+        c.create_index([tuple(x) for x in ix['key']], name=name, **kw)
+    for d in (state.docs if isinstance(state, State) else state):
         c.insert_one(copy.deepcopy(d))
     return c
 
@@ -97,10 +143,12 @@ def probe(runner, op):
     if op[0] != 'find':
         return None
     filt = op[1]
-    docs = [copy.deepcopy(d) for d in runner.raw_docs()]
+    raw = [copy.deepcopy(d) for d in runner.raw_docs()]
+    docs = state_of_collection(runner.coll, raw)
     F = lambda: copy.deepcopy(filt)
     res = through_all(docs, F)
-    res['extras'] = [(name, through_all(docs, mk)) for name, mk in extra_filters(docs, 0)]
+    res['indexes'] = [name for name, _ in docs.indexes]
+    res['extras'] = [(name, through_all(docs, mk)) for name, mk in extra_filters(raw, 0)]
     # the same through a collection handle carrying its own tz_aware codec options
     from mongomock.codec_options import CodecOptions
 
@@ -127,13 +175,62 @@ def probe(runner, op):
     return res
 
 
+WRITES = ('update_one', 'update_many', 'replace_one', 'delete_one', 'delete_many')
+
+
+def pre_probe(runner, op):
+    """before a write: how many documents count_documents says its filter selects, on the very
+    collection (documents and indexes) the write is about to run on"""
+    if op[0] not in WRITES:
+        return None
+    return attempt(lambda: runner.coll.count_documents(copy.deepcopy(op[1])))
+
+
 class Gen10(hist.HistGen):
-    """every history ends with a `find` whose filter is then sent through all entry points"""
+    """every history ends with a `find` whose filter is then sent through all entry points;
+    filters are also aimed at the indexes the history has created"""
+
+    def __init__(self, *a, **kw):
+        hist.HistGen.__init__(self, *a, **kw)
+        self.created = []
+
+    def create_index(self):
+        op = hist.HistGen.create_index(self)
+        self.created.append(op)
+        return op
+
+    def index_filter(self):
+        """a value for every key of one of the indexes created so far - the filters for which an
+        index says something about how many documents can match: plain values (absent field =
+        None, values the documents hold), now and then an operator or an array on one key"""
+        keys = [k for k, _ in self.r.choice(self.created)[1]]
+        d = self.some_doc() or {}
+        f = {}
+        for k in keys:
+            x = self.r.random()
+            if x < 0.35:
+                f[k] = None
+            elif x < 0.6 and k in d and wire_plain(d[k]):
+                f[k] = copy.deepcopy(d[k])
+            elif x < 0.9:
+                f[k] = self.r.choice([1, 2, 'x'])
+            else:
+                f[k] = self.r.choice([{'$in': [1, None]}, {'$gte': 1}, {'$exists': False}, [1]])
+        if self.r.random() < 0.15:
+            f[self.r.choice(['c', 'd'])] = self.r.choice([1, None, {'$exists': True}])
+        return f
+
+    def filt(self):
+        if self.created and self.r.random() < 0.2:
+            return self.index_filter()
+        return hist.HistGen.filt(self)
 
     def history(self, n):
         ops = [self.op() for _ in range(n)]
         f = self.filt()
-        if self.r.random() < 0.3:
+        if self.created and self.r.random() < 0.3:
+            f = self.index_filter()
+        elif self.r.random() < 0.3:
             # a filter on a date the documents may hold
             d = self.r.choice(gen.DATES)
             f = {self.r.choice(['a', 'b', 'c', 'd']): self.r.choice(
@@ -142,10 +239,14 @@ class Gen10(hist.HistGen):
         return ops
 
 
+def wire_plain(v):
+    return v is None or isinstance(v, (int, float, str))
+
+
 def histgen(rng, oids):
     hg = Gen10(rng, oids, weights=dict(
         insert_one=22, insert_many=10, update_one=8, update_many=8, replace_one=4,
-        delete_one=5, delete_many=5, find=6, count=8, distinct=3, create_index=2,
+        delete_one=5, delete_many=5, find=6, count=8, distinct=3, create_index=5,
         drop_index=0, drop_indexes=0, drop=1), ttl=False)
     hg.fg.elem = True
     return hg
@@ -188,6 +289,25 @@ def oracle(history, steps):
                 lab = 'modified-order-only' if changed <= m <= strict else 'modified-count'
                 fails.append((i, lab, '%s reported modified_count %r but %d documents differ '
                               '(%d counting key order and numeric type)' % (k, m, changed, strict)))
+        pre = (st.extra or {}).get('pre')
+        if k in WRITES and ok and pre and pre[0] == 'ok':
+            # the count a write reports = what the same filter selects on the same collection
+            one = k in ('update_one', 'replace_one', 'delete_one')
+            exp = min(pre[1], 1) if one else pre[1]
+            got = st.out[1].get('matched') if isinstance(st.out[1], dict) else st.out[1]
+            if got != exp:
+                lab = 'write-count-vs-count'
+                had = {freeze(b.get('_id', '<missing>')) for b in prev_docs}
+                if len(st.op) > 3 and st.op[3] and pre[1] == 0 \
+                        and got == 1 and st.out[1].get('upserted') is None \
+                        and len(docs) == len(prev_docs) + 1 and None not in had \
+                        and any(d.get('_id', '<missing>') is None for d in docs):
+                    # an upsert that stored _id null: the result object cannot tell it from
+                    # "no upsert" (upserted_id is None either way) and reports the insert as a match
+                    lab = 'upsert-null-id-matched'
+                fails.append((i, lab, '%s reported %r matched / deleted '
+                              'documents, count_documents with the same filter right before it '
+                              'gave %r' % (k, got, pre[1])))
         pr = (st.extra or {}).get('probe')
         if pr:
             fails.extend(check_agree(i, pr))
@@ -211,7 +331,7 @@ def check_agree(i, pr):
             if aw[k] != ('ok', v):
                 fails.append((i, 'aware-handle-disagree', 'through a tz_aware collection handle '
                               '%s gives %r where the plain find selects %r' % (k, aw[k], ids)))
-    kinds = {k: v[0] for k, v in pr.items() if k not in ('n_docs', 'aware', 'extras')}
+    kinds = {k: v[0] for k, v in pr.items() if k not in ('n_docs', 'aware', 'extras', 'indexes')}
     if len(set(kinds.values())) > 1:
         others = {v for k, v in kinds.items() if k != 'match'}
         if pr['n_docs'] == 0 and others == {'raised'} and kinds['match'] == 'ok':
